@@ -1154,7 +1154,7 @@ def padleft_fn(
             )
         cnt = 0
     else:
-        cnt = int(cntstr)
+        cnt = min(int(cntstr), 500)  # MediaWiki pads to at most 500 characters
     if cnt - len(v) > len(pad) and len(pad) > 0:
         pad = pad * ((cnt - len(v)) // len(pad))
     if len(v) < cnt:
@@ -1179,7 +1179,7 @@ def padright_fn(
                 sortid="parserfns/940",
             )
     else:
-        cnt = int(cntstr)
+        cnt = min(int(cntstr), 500)  # MediaWiki pads to at most 500 characters
     if cnt - len(v) > len(pad) and len(pad) > 0:
         pad = pad * ((cnt - len(v)) // len(pad))
     if len(v) < cnt:
@@ -1474,8 +1474,8 @@ def pad_fn(
         )
         cnt = 0
     else:
-        cnt = int(cntstr)
-    if cnt - len(v) > len(pad):
+        cnt = min(int(cntstr), 500)  # MediaWiki pads to at most 500 characters
+    if cnt - len(v) > len(pad) and len(pad) > 0:
         pad = pad * ((cnt - len(v)) // len(pad) + 1)
     if len(v) < cnt:
         padlen = cnt - len(v)
